@@ -291,26 +291,32 @@ class _Line:
 class _Buffer:
     """what handle.read() returns: the lines covered by a byte range"""
 
-    def __init__(self, lines):
+    def __init__(self, lines, final_newline=True, stripped=False):
         self.lines = lines
+        self.final_newline, self.stripped = final_newline, stripped
 
     def decode(self, enc):
         return self
 
     def rstrip(self):
-        return self
+        return _Buffer(self.lines, self.final_newline, True)
 
     def split(self, sep):
+        # 'l1\nl2\n'.split('\n') ends with an empty string unless the text was stripped or the file's last
+        # line has no newline
+        if self.final_newline and not self.stripped:
+            return self.lines + [_Line(0, None)]
         return self.lines
 
 
 class _Handle:
     """binary GVF handle over fake lines with symbolic byte lengths"""
 
-    def __init__(self, lines):
+    def __init__(self, lines, no_final_newline=False):
         self.lines = lines
         self.pos = 0
         self.misaligned = False
+        self.no_final_newline = no_final_newline
 
     def __iter__(self):
         return iter(self.lines)
@@ -333,13 +339,14 @@ class _Handle:
                 self.misaligned = True     # range cuts through a line
             off = e
         self.pos = b
-        return _Buffer(out)
+        last = len(out) > 0 and out[-1] is self.lines[-1]
+        return _Buffer(out, not (self.no_final_newline and last))
 
 
 KEYS = ['TA', 'TB', 'TC']
 
 
-def _index(keys, lens, ncomment, use_idx_file, mb=0):
+def _index(keys, lens, ncomment, use_idx_file, mb=0, no_final_newline=False):
     n = len(keys)
     if len(lens) < n + ncomment:
         return SKIP
@@ -353,7 +360,7 @@ def _index(keys, lens, ncomment, use_idx_file, mb=0):
         if not 0 <= keys[i] <= 2:
             return SKIP
         lines.append(_Line(lens[ncomment + i], _Rec(KEYS[keys[i]], i), mb if ncomment + i == 0 else 0))
-    h = _Handle(lines)
+    h = _Handle(lines, no_final_newline)
     with patched((gvfindex.io, 'line_to_variant_record', lambda line: line.rec)):
         ptrs = list(gvfindex.iterate_pointer(h, is_circ_rna=False))
         if use_idx_file:
@@ -402,6 +409,21 @@ def c13_index_scan(keys: List[int], lens: List[int], ncomment: int, mb: int) -> 
     post: _ >= 0
     """
     return _index(keys, lens, ncomment, False, mb)
+
+
+@cond('C13', bounds='as c13_index_scan (<= 3 records, no multi-byte characters) with the LAST line of the file ending '
+      'with or without a newline (symbolic), pointers generated on open or read back from .idx text',
+      encodes=ENC_I, codes=CODES_I, tokens=True, stubs=['as c13_index_scan; the text returned by read() splits '
+      'like real text: a trailing empty piece unless stripped or the last line has no newline'], timeout=400)
+def c13_index_final_newline(keys: List[int], lens: List[int], ncomment: int, no_nl: bool, use_idx: bool) -> int:
+    """
+    pre: 1 <= len(keys) <= 3
+    pre: len(lens) == 4
+    pre: 0 <= ncomment <= 1
+    pre: all(x < 10000 for x in lens)
+    post: _ >= 0
+    """
+    return _index(keys, lens, ncomment, use_idx, 0, no_nl)
 
 
 @cond('C13', bounds='as c13_index_scan with byte lengths < 10000 and the pointers written to and read '
